@@ -67,7 +67,19 @@ def build(ch):
     if has_mem:
         for s in range(ch.below(7)):
             ln = ch.below(24)
+            shape = ch.below(5)
             data = bytes((0x10 * (s + 1) + i) & 0xff for i in range(ln))
+            if shape == 1:
+                data = bytes(ln)                                            # all zero
+                cls['zero_bytes_in_segment'] = 1
+            elif shape == 2 and ln > 1:
+                z = 1 + ch.below(ln - 1)
+                data = data[:ln - z] + bytes(z)                             # trailing zeros
+                cls['zero_bytes_in_segment'] = 1
+            elif shape == 3 and ln > 1:
+                z = 1 + ch.below(ln - 1)
+                data = bytes(z) + data[z:]                                  # leading zeros
+                cls['zero_bytes_in_segment'] = 1
             if ch.below(5) == 0:
                 m.datas.append(('passive', None, data))
                 continue
